@@ -138,6 +138,9 @@ def matcher_agreement(ctx, n):
 
 def mon(sc, res):
     fails = M.m_c12_lists(sc, res)
+    # "a path matched by the effective patterns is never hashed or recorded" / what is not matched is: the record-level
+    # oracle of C02, restricted to its pattern-related findings
+    fails += [f for f in M.m_c02(sc, res) if "which is not" in f["what"] or "records in the new generation" in f["what"]]
     if sc.get("profile") == "c12-dh-cli":
         for st in res["steps"]:
             op, io_ = st["op"], st["impl"]
@@ -186,6 +189,20 @@ def cli_pattern_dh_scenarios():
     return out
 
 
+def path_dependent_scenarios():
+    """the same base name inside and outside an ignored region; history patterns with -sf <folder>"""
+    out = []
+    for pat in ("proxies/", "A001/clip001.mov", "/proxies", "proxies"):
+        t = {"A001/clip001.mov": "original", "proxies/clip001.mov": "proxy", "proxies/sub/clip001.mov": "proxy2", "B/proxies/clip001.mov": "b proxy", "clip001.mov": "top"}
+        out.append({"profile": "c12-same-name", "root": "root", "tree": t, "ops": [{"op": "create", "at": "", "h": ["md5"], "now": "2026-03-01 12:00:01", "i": [pat]}, {"op": "verify", "at": ""},
+                    {"op": "create", "at": "", "h": ["sha1"], "now": "2026-03-01 12:00:02"}]})
+    t = {"s/a.txt": "a", "s/x.tmp": "scratch", "s/cache/y.bin": "y", "top.tmp": "t", "top.txt": "tt"}
+    for pats in (["*.tmp"], ["cache"], ["*.tmp", "cache/"]):
+        out.append({"profile": "c12-sf-history-patterns", "root": "root", "tree": dict(t), "ops": [{"op": "create", "at": "", "h": ["md5"], "now": "2026-03-01 12:00:01", "i": pats},
+                    {"op": "create", "at": "", "h": ["md5"], "now": "2026-03-01 12:00:02", "sf": ["s"]}, {"op": "create", "at": "", "h": ["sha1"], "now": "2026-03-01 12:00:03", "sf": ["s", "top.txt"]}, {"op": "verify", "at": ""}]})
+    return out
+
+
 def fixed_scenarios():
     t = {"a.txt": "a", "x.tmp": "t", "s/b.txt": "b", "s/.DS_Store": "junk", ".DS_Store": "junk", "s/n/c.txt": "c"}
     out = []
@@ -198,7 +215,7 @@ def fixed_scenarios():
 
 
 def run(ctx):
-    scs = fixed_scenarios() + late_dir_pattern_scenarios() + cli_pattern_dh_scenarios() + _scn.standard_pool(ctx, ctx.scale(60, 1000), ctx.scale(25, 400))
+    scs = fixed_scenarios() + late_dir_pattern_scenarios() + cli_pattern_dh_scenarios() + path_dependent_scenarios() + _scn.standard_pool(ctx, ctx.scale(60, 1000), ctx.scale(25, 400))
     for k, sc in enumerate(scs):
         if k % 3 == 0 and "s/.DS_Store" not in sc["tree"]:
             sc["tree"][".DS_Store"] = "finder junk"
